@@ -350,3 +350,83 @@ func mergedErrTest(b *ssa.BasicBlock) bool {
 	}
 	return true
 }
+
+// refusalsOutside (round 7): a constructor's refusals that look only at a quantity with a specified valid range fire
+// only OUTSIDE that range.  For every rejection test whose condition reads nothing but the given value (and
+// constants): the facts "this edge rejects" together with "the value is in its valid range" must be contradictory.
+// `seedLen%4 != 0` refuses 17 bytes, `P >= 32` refuses the largest legal P — both pass every test of the suite.
+// value: the SSA value whose range is specified (len(seed) as a call, a parameter …); lo/hi: inclusive bounds (hi < 0:
+// none).
+func refusalsOutside(p *Program, r *Report, rule string, fn *ssa.Function, isValue func(v ssa.Value) bool, lin func(lc *LinCtx) (Lin, bool), lo, hi int64, what string) int {
+	rej := rejectingBlocks(fn)
+	lc := NewLinCtx(p, fn)
+	val, okV := lin(lc)
+	if !okV {
+		return 0
+	}
+	onlyValue := func(v ssa.Value) bool {
+		ok := true
+		seen := map[ssa.Value]bool{}
+		var walk func(v ssa.Value)
+		walk = func(v ssa.Value) {
+			if v == nil || seen[v] || !ok {
+				return
+			}
+			seen[v] = true
+			if isValue(v) {
+				return
+			}
+			switch x := v.(type) {
+			case *ssa.Const:
+			case *ssa.BinOp:
+				walk(x.X)
+				walk(x.Y)
+			case *ssa.UnOp:
+				if x.Op == token.MUL {
+					ok = false
+					return
+				}
+				walk(x.X)
+			case *ssa.Convert:
+				walk(x.X)
+			case *ssa.ChangeType:
+				walk(x.X)
+			case *ssa.Phi:
+				for _, e := range x.Edges {
+					walk(e)
+				}
+			default:
+				ok = false
+			}
+		}
+		walk(v)
+		return ok
+	}
+	n := 0
+	for _, b := range fn.Blocks {
+		iff, isIf := lastInstr(b).(*ssa.If)
+		if !isIf || rej[b] || mergedErrTest(b) {
+			continue
+		}
+		for k := 0; k < 2; k++ {
+			if !rejectingVia(rej, b, b.Succs[k], 0) || rejectingVia(rej, b, b.Succs[1-k], 0) {
+				continue
+			}
+			if !onlyValue(iff.Cond) {
+				continue
+			}
+			n++
+			conds := append(MustCondsAtBlock(fn, b), Cond{iff.Cond, k == 0, b})
+			f := lc.FactsOf(conds)
+			f.le = append(f.le, val.scale(-1).addConst(lo)) // lo − value ≤ 0
+			if hi >= 0 {
+				f.le = append(f.le, val.addConst(-hi)) // value − hi ≤ 0
+			}
+			// the facts contain value ≥ lo; deriving value ≤ lo − 1 from them means they are contradictory
+			outside := lc.Entails(f, val.addConst(-(lo - 1)))
+			r.Add(rule, FnName(fn), fmt.Sprintf("the refusal on %s fires only outside %s", exprString(iff.Cond), what), iff.Cond.Pos(), outside,
+				"a value inside the specified range is refused on this edge")
+		}
+	}
+	return n
+}
